@@ -322,7 +322,7 @@ input::
                 self._evalmon = monitor #FIXME: need .prepend(current)
         else:
             raise TypeError("'%s' is not a monitor instance" % monitor)
-        return
+        return self._update_objective() # rebind the monitor to the objective
 
     def SetStrictRanges(self, min=None, max=None, **kwds):
         """ensure solution is within bounds
